@@ -34,7 +34,7 @@ from typing import (
 
 import networkx
 import requests.exceptions
-from yaml import safe_load
+from yaml import YAMLError, safe_load
 
 from . import (
     gizaparser,
@@ -54,6 +54,7 @@ from .diagnostics import (
     DocUtilsParseError,
     DuplicateOptionId,
     ExpectedOption,
+    ErrorParsingYAMLFile,
     ExpectedPathArg,
     ExpectedStringArg,
     FetchError,
@@ -1284,6 +1285,13 @@ class JSONVisitor:
             except OSError as err:
                 self.diagnostics.append(
                     CannotOpenFile(Path(argument_text), err.strerror, line)
+                )
+                return doc
+            except (YAMLError, TypeError, ValueError, RecursionError) as err:
+                # The file is not YAML, or holds something JSON cannot express
+                # (a date, an alias referring to its own ancestor)
+                self.diagnostics.append(
+                    ErrorParsingYAMLFile(Path(argument_text), str(err), line)
                 )
                 return doc
 
